@@ -43,13 +43,13 @@ SetAttrs(a, ps) == IF ps = <<>> THEN a
                                    [] p.k = "cd" -> [a EXCEPT !.cd = p.v] [] p.k = "ce" -> [a EXCEPT !.ce = p.v]
                                    [] p.k = "cl" -> [a EXCEPT !.cl = p.v] [] OTHER -> a, Tail(ps))
 
-PutObj(st, b, n, o) ==
+PutObj(st, b, n, o) == TLCEval(
   [st EXCEPT !.buckets = [x \in (DOMAIN st.buckets) \cup {b} |->
                             IF x = b THEN [y \in (DOMAIN Objs(st, b)) \cup {n} |-> IF y = n THEN o ELSE Objs(st, b)[y]]
                             ELSE st.buckets[x]],
-             !.maxGen = [x \in (DOMAIN st.maxGen) \cup {<<b, n>>} |-> IF x = <<b, n>> THEN o.gen ELSE st.maxGen[x]]]
+             !.maxGen = [x \in (DOMAIN st.maxGen) \cup {<<b, n>>} |-> IF x = <<b, n>> THEN o.gen ELSE st.maxGen[x]]])
 DelObj(st, b, n) ==
-  [st EXCEPT !.buckets[b] = [y \in (DOMAIN st.buckets[b]) \ {n} |-> st.buckets[b][y]]]
+  TLCEval([st EXCEPT !.buckets[b] = [y \in (DOMAIN st.buckets[b]) \ {n} |-> st.buckets[b][y]]])
 
 (***************************** preconditions (C04) **************************)
 (* conds = [gm, gnm, mm, mnm], each [k |-> "unset"] | [k |-> "val", v |-> number] | [k |-> "bad"]          *)
